@@ -145,9 +145,32 @@ def siblings_before_an_unselected_mux_input():
     return s, {}
 
 
+def drops_written_with_a_minus_sign():
+    """series drops given with a minus sign - a constant, a 1-D and 2-D tables (whole table / single entries) on a VLoss
+    and on diode bridges, on both polarities: the magnitude counts, no passive element may raise the voltage"""
+    t2 = {"vi": [3.0, 12.0], "io": [0.0, 0.5, 1.0], "vdrop": [[-0.2, -0.35, -0.5], [-0.25, -0.4, -0.6]]}
+    t2m = {"vi": [3.0, 12.0], "io": [0.0, 0.5, 1.0], "vdrop": [[0.2, -0.35, 0.5], [-0.25, 0.4, 0.6]]}
+    t1 = {"vi": [5.0], "io": [0.0, 0.5, 1.0], "vdrop": [[-0.3, -0.45, -0.7]]}
+    s = System("sc11", C.Source("pos", vo=5.0, rs=0.05))
+    s.add_comp("pos", comp=C.VLoss("v2", vdrop=t2))
+    s.add_comp("v2", comp=C.ILoad("l1", ii=0.2))
+    s.add_comp("pos", comp=C.Rectifier("b2", vdrop=dict(t2m)))
+    s.add_comp("b2", comp=C.RLoad("l2", rs=20.0))
+    s.add_comp("pos", comp=C.VLoss("v1", vdrop=t1))
+    s.add_comp("v1", comp=C.PLoad("l3", pwr=1.0))
+    s.add_comp("pos", comp=C.VLoss("vc", vdrop=-0.4))
+    s.add_comp("vc", comp=C.ILoad("l4", ii=0.1))
+    s.add_source(C.Source("neg", vo=-9.0))
+    s.add_comp("neg", comp=C.VLoss("nv2", vdrop=dict(t2m)))
+    s.add_comp("nv2", comp=C.ILoad("l5", ii=0.3))
+    s.add_comp("neg", comp=C.Rectifier("nb2", vdrop=dict(t2)))
+    s.add_comp("nb2", comp=C.ILoad("l6", ii=0.4))
+    return s, {}
+
+
 ALL = [dead_branch_added_last, mux_second_input_tables, starved_regulator_before_mux, signed_phase_current_behind_series,
        negative_rail_tables, mux_changes_source_between_phases, light_branch_next_to_heavy, loss_loads_on_rails,
-       linreg_in_dropout_band, siblings_before_an_unselected_mux_input]
+       linreg_in_dropout_band, siblings_before_an_unselected_mux_input, drops_written_with_a_minus_sign]
 
 
 # ---------------------------------------------------------------------------------------------
